@@ -14,7 +14,10 @@ from lymph.types import ExtraParamsError  # noqa: E402
 
 from . import gen  # noqa: E402
 
-assert lymph.__file__.startswith("/repo/"), f"lymph imported from {lymph.__file__}, expected /repo"
+import os  # noqa: E402
+
+_REPO = os.environ.get("LYMPH_REPO", "/repo").rstrip("/")
+assert lymph.__file__.startswith(_REPO + "/"), f"lymph imported from {lymph.__file__}, expected {_REPO}"
 
 
 def err_enum(e: BaseException) -> str:
